@@ -82,13 +82,79 @@ class C02(Prop):
         worlds = [1, 2, 2, 3, 4, 4, 6, 8] if tier == 'quick' else [1, 2, 3, 4, 4, 6, 8, 8, 12, 16]
         return _case(worlds)
 
+    enum_shards = {'quick': 1, 'thorough': 4}
+
+    def enumerate(self, tier, shard, nshards):
+        # validation of the simulator against real gloo (thorough tier only): fixed configurations, both methods, three strategies
+        if tier != 'thorough':
+            return
+        spec = {'seed': 5, 'input': {'C': 2, 'H': 5, 'W': 5}, 'layers': [
+            {'t': 'conv', 'cin': 2, 'cout': 3, 'k': [2, 2], 's': [1, 1], 'p': [0, 1], 'bias': True}, {'t': 'act', 'name': 'relu'},
+            {'t': 'pool', 'oh': 1, 'ow': 2}, {'t': 'flatten'}, {'t': 'linear', 'in': 6, 'out': 4, 'bias': False},
+            {'t': 'act', 'name': 'tanh'}, {'t': 'linear', 'in': 4, 'out': 3, 'bias': True}]}
+        configs = [(2, 2, 'eigen', 0), (2, 1, 'inverse', 25.0), (4, 2, 'eigen', 25.0), (4, 4, 'inverse', 0), (4, 1, 'eigen', 1e-4),
+                   (4, 2, 'inverse', 1e-4), (3, 3, 'eigen', 25.0), (3, 1, 'eigen', 0)]
+        for i, (W, k, method, cap) in enumerate(configs):
+            if i % nshards == shard:
+                yield {'kind': 'gloo', 'W': W, 'k': k, 'fraction': 'float', 'colocate': True, 'heuristic': 'compute', 'cap': cap,
+                       'symmetry': i % 2 == 1, 'method': method, 'prediv': method == 'eigen', 'spec': spec, 'in_hook': i % 3 != 0, 'accum': 1,
+                       'N': 2, 'style': 'gauss', 'steps': 3, 'data_seed': 11,
+                       'hp': {'factor_update_steps': 1, 'inv_update_steps': 2, 'damping': 0.03, 'factor_decay': 0.9, 'kl_clip': 1e-3, 'lr': 0.1}}
+
+    def _gloo(self, case):
+        import torch
+        from vkit import gloocheck, kaisa
+        program = [{'op': 'train', 'seed': case['data_seed'] + t} for t in range(case['steps'])]
+        sim = kaisa.run_sim(case, program, [], False)
+        if not sim.ok:
+            return violation(f'protocol violation {sim.violations[0]}', 'protocol:' + sim.violations[0].kind)
+        real = gloocheck.run_gloo(case, program)
+        labels = {'kind': 'gloo', 'W': case['W']}
+        if real is None or any(v[0] != 'ok' for v in real.values()):
+            labels['gloo'] = 'inconclusive'
+            return passed(False, labels, {'gloo_note': str(None if real is None else [v[1][-300:] for v in real.values() if v[0] != 'ok'])[:500]})
+        W = case['W']
+        for r in range(W):
+            got = real[r][1]
+            exp = [x for x in sim.results[r] if x['op'] == 'train']
+            for t in range(case['steps']):
+                for n, g in exp[t]['after'].items():
+                    gg = torch.tensor(got[t][n], dtype=g.dtype).reshape(g.shape)
+                    err = (gg - g).norm().item() / max(g.norm().item(), 1e-30)
+                    if err > 1e-4:
+                        raise RuntimeError(f'harness: simulator and real gloo disagree on rank {r} step {t} {n}: rel {err:.3e}')
+            # per-group sequences of K-FAC/harness collectives
+            def norm(ev):
+                return (ev[0], tuple(ev[1]) if ev[1] != 'world' else tuple(range(W)), tuple(ev[2]) if len(ev) > 2 and ev[2] is not None else None,
+                        ev[3] if len(ev) > 3 else None, ev[4] if len(ev) > 4 else None)
+            real_seq = [norm(e) for e in real[r][2]]
+            sim_seq = []
+            for e in sim.trace[r]:
+                if e['kind'] == 'new_group':
+                    sim_seq.append(('new_group', tuple(e['ranks']), None, None, None))
+                elif e['kind'] in ('all_reduce', 'broadcast'):
+                    sim_seq.append((e['kind'], tuple(e['group']), tuple(e['shape']), e['dtype'], e.get('root')))
+            if real_seq != sim_seq:
+                i = next((i for i, (a, b) in enumerate(zip(real_seq, sim_seq)) if a != b), min(len(real_seq), len(sim_seq)))
+                raise RuntimeError(f'harness: collective sequence on rank {r} differs between gloo and the simulator at #{i}: '
+                                   f'{real_seq[i:i + 2]} vs {sim_seq[i:i + 2]}')
+        labels['gloo'] = 'agrees'
+        return passed(True, labels, {'traces_validated': W})
+
     def summarize(self, infos):
         r = sorted(i['ratio'] for i in infos if 'ratio' in i)
         if not r:
             return {}
-        return {'err_over_tol_rel34': {'p50': r[len(r) // 2], 'max': r[-1]}, 'rank_switches_total': sum(i.get('switches', 0) for i in infos)}
+        return {'err_over_tol_rel34': {'p50': r[len(r) // 2], 'max': r[-1]}, 'rank_switches_total': sum(i.get('switches', 0) for i in infos),
+                'traces_validated_against_impl': sum(i.get('traces_validated', 0) for i in infos),
+                'gloo_notes': [i['gloo_note'] for i in infos if i.get('gloo_note') not in (None, 'None')][:3]}
 
     def run_case(self, case):
+        if case.get('kind') == 'gloo':
+            return self._gloo(case)
+        return self._main(case)
+
+    def _main(self, case):
         import torch
         from vkit import kaisa, kmodel, refkfac
 
